@@ -25,6 +25,8 @@ State record: fifol of coq/FifoLit.v.  What differs from the lru family, and the
         return / break, not nested in another loop.  Anything else: Unsupported.
     auto& [a, b] = *begin            -> let '(a, b) := item; for a range that is filled (find_range_fill) the
         names alias the item, and the (possibly assigned) pair is what the iteration leaves in the range
+    f(std::begin(r), std::end(r));  as a statement, r the range parameter to fill, f a void member filling its range
+        -> the call; r then holds what the translation of f returns (same as `return f(...);` in a void function)
 """
 import re
 import cpp2coq
@@ -270,6 +272,23 @@ class Ext(cpp2coq.Tr):
                 x = self.fresh("o")
                 return bo + b + ["do %s <- mit_engage %s;" % (x, t)] + self.set_elem_field(to, lhs["n"], x, st)
             raise Unsupported("assignment of %s to %s" % (kd, lhs["n"]))
+        if c["k"] == "mcall" and c["a"] and c["a"][0]["k"] == "this":
+            # f(std::begin(r), std::end(r));  /  f(r);  as a STATEMENT, r a range parameter of this method that is to be
+            # filled and f a void member function that fills the range it is handed (its translation returns the filled
+            # range): r now holds what f left in it, which is the observable result of this method (as after a loop over r);
+            # r cannot be used again afterwards.  (`return f(...);` in a void function is this statement, then return.)
+            args = c["a"][1:]
+            rs = [x["n"] for a in args for x in ([a] if a["k"] == "ref" else a["a"] if (a["k"] == "call" and a["n"] in ("begin", "end") and len(a["a"]) == 1) else [])
+                  if x["k"] == "ref" and x["n"] in env and env[x["n"]][1] == "fillrange"]
+            if rs:
+                if len(set(rs)) != 1 or "__fill" in env:
+                    raise Unsupported("a call statement that is handed more than one range to fill, or one that was already filled")
+                b, t, kd = self.call_method(c["n"], args, st, env)
+                if kd != "outvec":
+                    raise Unsupported("a range to fill handed to %s, whose translation does not return the filled range" % c["n"])
+                env["__fill"] = (t, "outvec")
+                env.pop(rs[0])
+                return b
         return None
 
     # ---- statements: the input-iterator loop and structured bindings of its item
